@@ -308,6 +308,10 @@ class Machine:
                             found = True
                         break
                 if not found:
+                    if size == 1 and o.kind == "stack":
+                        # copy of an empty class object (clang emits a 1-byte load of an uninitialised alloca): value is undef
+                        self.events.append(("undef-byte-load", o.name))
+                        return 0
                     raise MemError("load of uninitialised memory: object %s off %d size %d" % (o.name or o.kind, off, size))
                 continue
             cs, cv = c
